@@ -47,6 +47,22 @@ class NioFacts:
             for s in blk["stmts"]:
                 if s["k"] == "assign" and s["lhs"]["l"] == 0 and not s["lhs"]["proj"] and s["rhs"]["k"] == "use" and op_local(s["rhs"]["a"]) is not None:
                     rs.add(op_local(s["rhs"]["a"]))
+        # a result that travels through an exit helper's parameter / a temporary: follow single-definition plain copies
+        # back to the variable they copy (`_0 = copy finish.r; finish.r = copy r`)
+        def copy_root(l):
+            n = 0
+            while n < 8:
+                n += 1
+                ds = self.du.defs.get(l, [])
+                if l <= b.argc or len(ds) != 1 or ds[0][2] != "assign" or ds[0][3]["lhs"]["proj"]:
+                    break
+                rv = ds[0][3]["rhs"]
+                if rv["k"] == "use" and rv["a"]["k"] in ("copy", "move") and not rv["a"]["p"]["proj"]:
+                    l = rv["a"]["p"]["l"]
+                else:
+                    break
+            return l
+        rs = {copy_root(l) for l in rs}
         self.r = sorted(rs)
         # accumulator: X = move (T.0), T = AddWithOverflow(copy X, Y), Y derived from r
         self.acc = None
